@@ -60,6 +60,12 @@ func goWalkPath(schemas ast.Schemas, args []ast.Argument, p ast.Path, cur ast.Ty
 				return "index-into-non-collection"
 			}
 			if typeKeyErased(it.Type, false) != typeKeyErased(v, false) {
+				// the one shape map_to_index produces after array_to_append: the path ends in an array of
+				// maps and the index item carries the inner map's value type
+				if r.Kind == ast.KindArray && v.Kind == ast.KindMap && v.Map != nil &&
+					typeKeyErased(it.Type, false) == typeKeyErased(v.Map.ValueType, false) {
+					return "index-item-type-through-array-of-maps"
+				}
 				return "index-item-type"
 			}
 			if it.Index.Argument != nil && !goDeclared(args, *it.Index.Argument) {
